@@ -15,13 +15,17 @@ def _binding(f, x, env):
     return origin(f, x)
 
 
-def fold(fx, f, env, effects=(), max_paths=4096, depth=0):
+def fold(fx, f, env, effects=(), max_paths=4096, depth=0, call_values=None):
     """Walk f's CFG with `env` (parameter name -> int).  Returns a list of paths, each
     {'effects': [(callee name, callee cls, call node, line)], 'ret': int | None | 'unknown'}."""
     if depth > 3:
         raise Unfoldable('helper nesting too deep at %s' % f.n)
 
     def call_hook(x, env_):
+        if call_values is not None:
+            r = call_values(x)
+            if r is not None:
+                return r
         g = fx.callee(f, x)
         if g is None or g.lam:
             raise ValueError('call to %s is not foldable' % callee_name(x))
@@ -32,7 +36,7 @@ def fold(fx, f, env, effects=(), max_paths=4096, depth=0):
         for p_, a in zip(g.params, args):
             sub[p_['n']] = ieval(origin(f, a), env_)
         vals = set()
-        for pth in fold(fx, g, sub, (), max_paths, depth + 1):
+        for pth in fold(fx, g, sub, (), max_paths, depth + 1, call_values):
             vals.add(pth['ret'])
         if len(vals) != 1 or 'unknown' in vals or None in vals:
             raise ValueError('helper %s does not fold to one value' % g.n)
